@@ -44,7 +44,7 @@ struct Deviation {
 	size_t pair_base = 0;             // index (per recipient) of the first message of the tampered pair
 	int answer = 0;                   // complaint answer: 0 correct, 1 incorrect (revealed share + 1), 2 none (silent from there on),
 	                                  // 3 ignored: the `who` of the answer is replaced by the end marker, the party goes on normally
-	int opening = 0;                  // opening of the own share: 0 correct, 1 mismatching (+1), 2 none (silent from there on)
+	int opening = 0;                  // opening of the own share: 0 correct, 1 mismatching (+1), 2 none (silent from there on), 4 out of range (a_i + q)
 	bool bad_recon = false;           // the shares this party contributes to public reconstructions are broadcast as share + 1
 	bool active() const { return !wrong.empty() || !drop.empty() || answer || opening || bad_recon; }
 	std::string str() const { std::string r = "wrong={"; for (size_t w : wrong) r += std::to_string(w) + " "; r += "} drop={"; for (size_t w : drop) r += std::to_string(w) + " ";
@@ -89,7 +89,8 @@ public:
 inline TamperBroadcast *&tamper_broadcast() { static TamperBroadcast *p = 0; return p; }   // the wrapped broadcast channel of this (child) process
 
 inline ForkResult fork_parties(size_t n, size_t t, uint64_t seed, time_t aio_timeout, unsigned wall_limit_s, party_fn f,
-                               const std::map<size_t, Deviation> *devs = 0, mpz_srcptr q_dev = 0, time_t unicast_timeout = 0) {
+                               const std::map<size_t, Deviation> *devs = 0, mpz_srcptr q_dev = 0, time_t unicast_timeout = 0,
+                               const std::vector<bool> *dont_wait = 0 /* parties whose result is not waited for (deviators) */) {
 	// unicast_timeout: separate (shorter) time-out of the point-to-point channels, so that a party that waits in vain for a private
 	// message is not in turn timed out by the others on the broadcast channel
 	ForkResult R; R.text.assign(n, ""); R.status.assign(n, -1);
@@ -162,7 +163,7 @@ inline ForkResult fork_parties(size_t n, size_t t, uint64_t seed, time_t aio_tim
 				int st = 0; pid_t r = waitpid(pid[w], &st, WNOHANG);
 				if (r == pid[w]) { R.status[w] = WIFEXITED(st) ? WEXITSTATUS(st) : 1000 + (WIFSIGNALED(st) ? WTERMSIG(st) : 0); pid[w] = -1; }
 			}
-			if (pid[w] > 0 && !ended(w)) busy++;
+			if (pid[w] > 0 && !ended(w) && !(dont_wait && (*dont_wait)[w])) busy++;
 		}
 		if (!busy) break;
 		struct timespec t1; clock_gettime(CLOCK_MONOTONIC, &t1);
